@@ -3,7 +3,8 @@
    it in the junction's own rows); then (T, 0) solves the augmented system exactly, and an injective augmented matrix has no other
    non-negative minimiser.  The effect of the three-decimal rounding of b is used as a tolerance by harness/props/c03.py. *)
 From Coq Require Import List Reals QArith.
-From Forsys Require Import Model.Num Model.PyList Model.Cert Model.Tracking Proofs.CertProofs Proofs.TrackingProofs.
+From Forsys Require Import Model.Num Model.PyList Model.Cert Model.Tracking Proofs.CertProofs Proofs.TrackingProofs Model.Round Proofs.RoundProofs.
+From Coq Require Import Qabs.
 Import ListNotations.
 
 Theorem C03_resultant_velocity_solves : forall (M : list (list R)) (T b : list R),
@@ -34,7 +35,15 @@ Theorem C03_unit_mobility_velocity_backward_last : forall frames maps p t ti vs0
   exists vx vy, calculate_velocity frames maps p t = Some (vx, vy) /\ (vx == fx)%Q /\ (vy == fy)%Q.
 Proof. exact unit_mobility_velocity_backward_last. Qed.
 
+(* "the tolerance implied by the three-decimal rounding of the velocity term": rounding to three decimals moves every component of the
+   right-hand side by at most 0.0005 and to the nearest multiple of 0.001 - the perturbation the harness propagates through the
+   pseudo-inverse of the system the back-end receives *)
+Theorem C03_rounding_perturbs_by_half_a_thousandth : forall x m,
+  (Qabs (x - round_dec 3 x) <= 1 # 2000)%Q /\ (Qabs (x - round_dec 3 x) <= Qabs (x - (m # 1000)))%Q.
+Proof. intros x m. exact (conj (round_dec_within_half 3 x) (round_dec_nearest 3 x m)). Qed.
+
 Print Assumptions C03_resultant_velocity_solves.
 Print Assumptions C03_unique_minimiser.
 Print Assumptions C03_unit_mobility_velocity_forward.
 Print Assumptions C03_unit_mobility_velocity_backward_last.
+Print Assumptions C03_rounding_perturbs_by_half_a_thousandth.
